@@ -202,7 +202,10 @@ func (server *SugarDB) handleCommand(ctx context.Context, message []byte, conn *
 		return res, err
 	}
 
-	// Handle other commands that need to be synced across the cluster
+	// Handle other commands that need to be synced across the cluster.
+	// The mutation itself happens in the raft state machine (where raft orders it with snapshots), not in
+	// this goroutine: the flag raised above must not stay set, or the next state copy waits for ever.
+	server.stateMutationInProgress.Store(false)
 	if server.raft.IsRaftLeader() {
 		var res []byte
 		res, err = server.raftApplyCommand(ctx, cmd)
